@@ -21,8 +21,10 @@ CLAIM = dict(
          "abstract heap semantics of the effect language is defined in Coq (big-step relation, any statement may stop, so all prefixes are covered); "
          "soundness of the checker w.r.t. it is proved for every program of the statement language (C19_safe_sound: accepted => in every execution from "
          "every initial heap every logged write is to storage allocated during the call; invariant preservation by every expression and statement, loops "
-         "by the checked post-fixpoint, calls by the depth fuel, out of fuel = rejected), and combined with the generated obligation in "
-         "C19_entry_points_do_not_write_caller_storage (all entry points with no defect on record). "
+         "by the checked post-fixpoint, calls by the depth fuel, out of fuel = rejected; C19_report_sound: a non-empty report attributes every write to pre-existing storage to the region "
+         "of a reported parameter), and combined with the generated obligation in C19_entry_points_do_not_write_caller_storage / "
+         "C19_entry_points_write_at_most_recorded_parameters. A model diagnostic (dead_uses: variables unbound in every execution, where the "
+         "semantics would be stuck and the theorem silent) is reported in the evidence and is empty. "
          "Tie: every public entry point is called on small inputs with deep snapshots (graphs incl. attributes, containers, arrays incl. "
          "shape/dtype/flags) before/after and called again on the same objects; static and dynamic verdicts must agree per function and parameter.",
     design='DESIGN.md section 4, C19; section 2.4(b)',
